@@ -162,6 +162,26 @@ func objectSize(args ...Object) Object {
 		bin, _ := path.(*Binary)
 
 		return &Number{Value: float64(len(bin.Value))}
+	case ObjectTypeList:
+		list, _ := path.(*List)
+
+		return &Number{Value: float64(len(list.Value))}
+	case ObjectTypeMap:
+		m, _ := path.(*Map)
+
+		return &Number{Value: float64(len(m.Value))}
+	case ObjectTypeStringSet:
+		ss, _ := path.(*StringSet)
+
+		return &Number{Value: float64(len(ss.Value))}
+	case ObjectTypeNumberSet:
+		ns, _ := path.(*NumberSet)
+
+		return &Number{Value: float64(len(ns.Value))}
+	case ObjectTypeBinarySet:
+		bs, _ := path.(*BinarySet)
+
+		return &Number{Value: float64(len(bs.Value))}
 	}
 
 	return newError("type not supported: size %s", path.Type())
